@@ -942,3 +942,81 @@ def run_proc_probes(c, pid, payloads):
         if o["raised"] != anyfail:
             report(f"{pid}:probe:{tag}:exit-reports-" + ("success-although-a-job-failed" if anyfail else "failure-although-none-failed"),
                    f"leaving the experiment raised={o['raised']}; some job failed={anyfail}")
+
+
+def run_block_probes(c, pid, payloads):
+    """Successive `with experiment(...)` blocks in one process sharing a token object (drive_procs.py, mode blocks):
+    every job exits with status 0: it is DONE, no block raises FailedExperiment, the token is whole at the end."""
+    import json as _json
+    from concurrent.futures import ThreadPoolExecutor
+    from vcommon import run_impl
+    if c.replay:
+        rp = _json.load(open(c.replay))["replay"]
+        payloads = [rp["probe"]] if rp.get("probe", {}).get("mode") == "blocks" else []
+
+    def attempt(pl):
+        try:
+            return run_impl("drive_procs.py", pl, timeout=400)
+        except Exception as e:  # noqa
+            return dict(error=str(e)[-300:], blocks=[])
+
+    with ThreadPoolExecutor(max_workers=4) as ex:
+        results = list(ex.map(attempt, payloads))
+    for pl, o in zip(payloads, results):
+        c.evaluations += 1
+        tag = f"blocks:{pl.get('token', 'proc')}-token"
+        c.count(f"probe:{tag}:{pl.get('nblocks')}x{pl.get('per')}")
+        if o.get("error"):
+            c.violation(f"{pid}:probe:{tag}:run-did-not-complete", f"successive experiments sharing a token: {o['error'][-400:]}",
+                        dict(probe=pl, observed=o))
+            continue
+        for b, rec in enumerate(o["blocks"]):
+            bad = [j for j in rec["jobs"] if j["state"] != "DONE"]
+            if bad:
+                c.violation(f"{pid}:probe:{tag}:job-exited-0-ends-{bad[0]['state']}-in-later-experiment" if b else
+                            f"{pid}:probe:{tag}:job-exited-0-ends-{bad[0]['state']}",
+                            f"experiment {b + 1} of {len(o['blocks'])} in one process, token shared: job {bad[0]['name']} "
+                            f"(process ran: {bad[0]['started']}, success marker: {bad[0]['done_file']}) is {bad[0]['state']}",
+                            dict(probe=pl, observed=o))
+            if rec["raised"]:
+                c.violation(f"{pid}:probe:{tag}:experiment-raises-although-every-job-succeeded",
+                            f"experiment {b + 1}: FailedExperiment raised; jobs: {rec['jobs']}", dict(probe=pl, observed=o))
+        if o.get("available") != pl.get("capacity", 1):
+            c.violation(f"{pid}:probe:{tag}:token-not-whole-at-the-end",
+                        f"token.available = {o.get('available')} of {pl.get('capacity', 1)} after the last experiment",
+                        dict(probe=pl, observed=o))
+
+
+C06_CASE_KEYS = {"alt_workspaces": "C06:case:alt-workspaces-setting-no-job-scheduled",
+                 "nested": "C06:case:dependent-in-another-open-experiment-never-started",
+                 "refused": "C06:case:dependent-of-refused-submission-waits-for-ever",
+                 "dryrun_dep": "C06:case:dependent-of-dry-run-submission-waits-for-ever"}
+
+
+def run_c06_cases(c):
+    """harness/c06_cases.py: directed cases with real job processes, one process each"""
+    import json as _json
+    import subprocess
+    from concurrent.futures import ThreadPoolExecutor
+    from vcommon import impl_env, HARNESS, PY
+    names = list(C06_CASE_KEYS)
+    if c.replay:
+        rp = _json.load(open(c.replay))["replay"]
+        names = [rp["case"]] if rp.get("case") in C06_CASE_KEYS else []
+
+    def one(name):
+        try:
+            p = subprocess.run([PY, "-W", "ignore", str(HARNESS / "c06_cases.py"), name], capture_output=True, text=True,
+                               timeout=120, env=impl_env())
+            lines = [l for l in p.stdout.splitlines() if l.startswith(("ok:", "DEFECT:"))]
+            return p.returncode, (lines[-1] if lines else (p.stderr.strip().splitlines() or ["no output"])[-1])
+        except subprocess.TimeoutExpired:
+            return 1, "DEFECT: the case did not end within 120 s"
+
+    with ThreadPoolExecutor(max_workers=4) as ex:
+        res = list(ex.map(one, names))
+    for name, (rc, line) in zip(names, res):
+        c.evaluations += 1
+        c.count("case:" + name)
+        if rc != 0:
+            c.violation(C06_CASE_KEYS[name], f"c06_cases.py {name}: {line[:400]}", dict(case=name, what=line[:400]))
